@@ -22,3 +22,4 @@ open GrVerif.Props.C01
 #print axioms pass_total
 #print axioms glyph_attributes_total
 #print axioms sparse_total
+#print axioms face_loading_total
